@@ -36,7 +36,35 @@ def genBytes (kind : String) (len seed : Nat) : List Nat := Id.run do
     else out := out.push 0
   return out.toList
 
+/-- `segs:<seed>:<seg>,…` — content built from segments (see harness/eng_flt.c). -/
+def genSegs (seed : Nat) (segs : List String) : Option (List Nat) := Id.run do
+  let txt := "the quick brown fox jumps over the lazy dog\n".toUTF8
+  let mut out : Array Nat := #[]
+  let mut s : UInt64 := seed.toUInt64
+  for g in segs do
+    let k := g.front
+    let body := (g.drop 1).toString
+    let (dist, len) : Nat × Nat :=
+      if k == 'c' then
+        match body.splitOn "x" with
+        | [d, l] => (d.toNat?.getD 0, l.toNat?.getD 0)
+        | _ => (0, 0)
+      else (0, body.toNat?.getD 0)
+    for _ in [0:len] do
+      if k == 'r' then
+        s := s * 6364136223846793005 + 1442695040888963407
+        out := out.push (s >>> 56).toNat
+      else if k == 't' then out := out.push (txt.get! (out.size % txt.size)).toNat
+      else if k == 'c' then out := out.push (if dist ≥ 1 ∧ dist ≤ out.size then out[out.size - dist]! else 0)
+      else out := out.push 0
+  return some out.toList
+
 def parsePayload (spec : String) : Option (List Nat) :=
+  if spec.startsWith "segs:" then
+    match (spec.drop 5).toString.splitOn ":" with
+    | [sd, l] => do genSegs (← sd.toNat?) (l.splitOn ",")
+    | _ => none
+  else
   if spec.startsWith "hex:" then LA.parseHex (spec.drop 4).toString
   else if spec.startsWith "gen:" then
     match (spec.drop 4).toString.splitOn ":" with
